@@ -55,4 +55,47 @@ def isKeyError : Py.Exc → Bool
   | .KeyError => true
   | _ => false
 
+/-! ## third part (round 3, C07): state at the time of an exception, extended numbers, defaultdict(list), slice assignment -/
+
+/-- how the body of a `try` whose handlers read variables the body assigns ends: an exception together with the values of those
+    variables at the time it was raised, or normally -/
+inductive TryEnd (ε χ α : Type) where
+  | raised (e : ε) (snap : χ)
+  | done (a : α)
+
+/-- an int or the float `1e999` (= inf); the only float the translated code mentions -/
+inductive IntInf where
+  | fin (i : Int)
+  | inf
+  deriving DecidableEq, Repr
+
+/-- the literal `1e999` -/
+def infinity : IntInf := .inf
+
+/-- `a + b` -/
+def IntInf.add : IntInf → IntInf → IntInf
+  | .fin a, .fin b => .fin (a + b)
+  | _, _ => .inf
+
+/-- `a < b` -/
+def IntInf.lt : IntInf → IntInf → Bool
+  | .fin a, .fin b => decide (a < b)
+  | .fin _, .inf => true
+  | .inf, _ => false
+
+/-- `d[k] += vs` on a `collections.defaultdict(list)`: extend the list of an existing key (its position stays), else append the key -/
+def defaultListExtend {κ ν : Type} [DecidableEq κ] (d : List (κ × List ν)) (k : κ) (vs : List ν) : List (κ × List ν) :=
+  match d with
+  | [] => [(k, vs)]
+  | (k', v') :: rest => if k' = k then (k', v' ++ vs) :: rest else (k', v') :: defaultListExtend rest k vs
+
+/-- `k in d` -/
+def dictMem {κ ν : Type} [DecidableEq κ] (d : List (κ × ν)) (k : κ) : Bool := d.any (fun p => decide (p.1 = k))
+
+/-- `xs[-k:] = ys` for a literal `k > 0` -/
+def setTail {α : Type} (xs : List α) (k : Nat) (ys : List α) : List α := xs.take (xs.length - k) ++ ys
+
+/-- a caught exception class is a constructor of `Py.Exc` -/
+def isExc (c e : Py.Exc) : Bool := decide (e = c)
+
 end I18n.PyKit
